@@ -269,6 +269,68 @@ func defectOracle(c DCase) *ev.Verdict {
 	return nil
 }
 
+// ---- every beginning of a text, with and without a blank or a line break behind it
+
+// TCase: a generated text cut after Cut bytes. Blanks and line breaks after the end of a text are
+// presentation: if the beginning is accepted as it stands it is accepted with them, and the other way
+// round (the error code of a rejected beginning may differ - "unexpected end" versus "invalid character").
+type TCase struct {
+	P   *model.Project `json:"project"`
+	L   *model.Layout  `json:"layout"`
+	Cut int            `json:"cut"`
+}
+
+func truncationOracle(c TCase) *ev.Verdict {
+	if c.P == nil || c.P.Root == nil {
+		return nil
+	}
+	tp := c.P.Text(c.L)
+	cut := c.Cut % (len(tp.Root) + 1)
+	base := tp.Root[:cut]
+	accepted := func(tail string) (bool, *sut.Outcome) {
+		q := tp
+		q.Root = base + tail
+		o := sut.Observe(q)
+		return o.Check == nil && len(o.AddErr) == 0 && len(o.RuleErr) == 0, o
+	}
+	a0, o0 := accepted("")
+	if len(o0.Escapes) > 0 {
+		e := o0.Escapes[0]
+		return ev.V("panic:"+e.Op+":"+e.Frame, "%s panicked: %s\n%q", e.Op, e.Value, base)
+	}
+	if a0 {
+		ev.NonTrivial("truncations", base)
+	}
+	for _, tail := range []string{"\n", " ", "\r\n", "\t\n\n", "\r"} {
+		if strings.Contains(base, "\r") != strings.Contains(tail, "\r") && strings.ContainsAny(base, "\r\n") && strings.ContainsAny(tail, "\r\n") {
+			continue // keep one newline convention per text
+		}
+		a, o := accepted(tail)
+		if len(o.Escapes) > 0 {
+			e := o.Escapes[0]
+			return ev.V("panic:"+e.Op+":"+e.Frame, "%s panicked: %s\n%q", e.Op, e.Value, base+tail)
+		}
+		if a != a0 {
+			return ev.V(fmt.Sprintf("truncation:verdict-flips:accepted=%v", a0), "%q: Check() = %v; followed by %q: %v", base, o0.Check, tail, o.Check)
+		}
+		if a && a0 && o0.AST != "" && !strings.Contains(o0.AST, `"TokenType":""`) {
+			if what, detail := firstDiff(o0, o); what != "" && what != "len" {
+				return ev.V("truncation:"+what, "%q and the same text followed by %q differ in %s", base, tail, detail)
+			}
+		}
+	}
+	return nil
+}
+
+func TestPropTruncations(t *testing.T) {
+	registerAll()
+	ev.Rapid(t, "truncations", ev.N(2500, 20000), func(t *rapid.T) TCase {
+		p := genProject(t)
+		addNotes(t, p.Root)
+		return TCase{P: p, L: gen.Layout(t, gen.LayoutOpts{}), Cut: rapid.IntRange(0, 400).Draw(t, "cut")}
+	}, truncationOracle)
+}
+
 func TestPropDefectsUnderComments(t *testing.T) {
 	registerAll()
 	ev.Rapid(t, "defects", ev.N(3000, 20000), func(t *rapid.T) DCase {
@@ -280,6 +342,7 @@ func TestPropDefectsUnderComments(t *testing.T) {
 
 func registerAll() {
 	ev.Register("defects", defectOracle)
+	ev.Register("truncations", truncationOracle)
 	ev.Register("models", judged)
 	ev.Register("corpus", corpusOracle)
 	ev.Register("edge-spellings", corpusOracle)
